@@ -34,6 +34,8 @@ def goenv():
     e = dict(os.environ)
     e.update(GOFLAGS="-mod=mod", GOPROXY="off", GOSUMDB="off", GOTOOLCHAIN="local")
     e.setdefault("GOCACHE", os.path.join(WORK, "gocache"))
+    if os.environ.get("VERIF_COVER"):
+        e["GOCOVERDIR"] = os.environ["VERIF_COVER"]
     return e
 
 
@@ -94,6 +96,10 @@ def _go_build(src, out, race):
     cmd = ["go", "build", "-tags", "verif", "-o", out]
     if race:
         cmd.insert(2, "-race")
+    if os.environ.get("VERIF_COVER"):
+        # statement coverage of the code under test by a check (lib/coverage.sh); counters go to $GOCOVERDIR
+        m = "github.com/cloudspannerecosystem/memefish"
+        cmd[2:2] = ["-cover", "-coverpkg=%s,%s/ast,%s/token,%s/char" % (m, m, m, m)]
     t = time.time()
     p = run(cmd + ["."], cwd=src, env=goenv(), check=False, timeout=900)
     if p.returncode != 0:
